@@ -32,6 +32,9 @@ func runC13(c *rt.Ctx) {
 	for i := 0; i < nh; i++ {
 		c.Case("hist", i, func(o *rt.Obs) { c13History(c, o) })
 	}
+	for i, d := range c13Directed {
+		c.Case("directed", i, func(o *rt.Obs) { c13RunHistory(c, o, d.spec, i%2 == 1, d.ops, -1) })
+	}
 	writers := []c12Op{
 		{Kind: "load", Branch: "main", IDs: []int{11, 12}, Vals: idsVals(11, 12)},
 		{Kind: "delete-where", Branch: "main", IDs: []int{3}},
@@ -69,7 +72,6 @@ func runC13(c *rt.Ctx) {
 // ---- (a) immutability over histories ------------------------------------------------
 
 func c13History(c *rt.Ctx, o *rt.Obs) {
-	ctx := context.Background()
 	r := o.R
 	spec := genPoolSpec(r, "p")
 	if spec.Key == "this" {
@@ -86,6 +88,29 @@ func c13History(c *rt.Ctx, o *rt.Obs) {
 	if r.Chance(1, 3) {
 		renameAt = r.Intn(n)
 	}
+	c13RunHistory(c, o, spec, fileLike, ops, renameAt)
+}
+
+// c13Directed: fixed histories (regression cases / shapes the random histories rarely produce).
+var c13Directed = []struct {
+	spec lk.PoolSpec
+	ops  []lk.Op
+}{
+	// 0: a commit records a vector for an object; the object is then deleted from the
+	// branch (not vacuumed) and a second vector add names it again: the refused request
+	// must leave the first commit's vector object alone
+	{lk.PoolSpec{Name: "p", Key: "k", Order: "asc"}, []lk.Op{
+		{Kind: "load", Branch: "main", Vals: []string{"{k:1,id:1}", "{k:2,id:2}", "{k:3,id:3}"}},
+		{Kind: "add-vectors", Branch: "main", Objs: []int{0}},
+		{Kind: "delete", Branch: "main", Objs: []int{0}},
+		{Kind: "add-vectors", Branch: "main", Objs: []int{0}, Any: true},
+		{Kind: "load", Branch: "main", Vals: []string{"{k:4,id:4}"}},
+		{Kind: "del-vectors", Branch: "main", Objs: []int{0}, Any: true},
+		{Kind: "delete", Branch: "main", Objs: []int{0}, Any: true}}},
+}
+
+func c13RunHistory(c *rt.Ctx, o *rt.Obs, spec lk.PoolSpec, fileLike bool, ops []lk.Op, renameAt int) {
+	ctx := context.Background()
 	desc := map[string]any{"pool": spec, "file_semantics": fileLike, "ops": ops, "rename_pool_after_step": renameAt}
 	o.Desc(desc)
 	if o.Index%100 == 0 {
@@ -145,6 +170,25 @@ func c13History(c *rt.Ctx, o *rt.Obs) {
 					sig = "vacuumed-commit-answers-differently"
 				}
 				o.Violation(sig, fmt.Sprintf("after step %d (%s): commit #%d %s (a %s) now reads differently from when it was created: %s", step, op, ci, commit, m.Commits[commit].Kind, d))
+			}
+			// the vector objects the commit lists are part of what a (vectorized)
+			// query at that commit reads: they must stay in place until vacuumed
+			if m.NeedsVacuumed(commit) {
+				continue
+			}
+			vecs, err := h.Vectors(ctx, m.Spec.Name, commit.String())
+			if err != nil {
+				o.Violation("commit-unreadable-later", fmt.Sprintf("after step %d (%s): vector listing of commit #%d %s failed: %v", step, op, ci, commit, err))
+				continue
+			}
+			for _, v := range vecs {
+				o.Count("commit_vector_objects_checked", 1)
+				if m.Vacuumed[v.ID] {
+					continue
+				}
+				if st := lk.VectorStatus(eng.B, m.PoolID, v.ID); strings.HasPrefix(st, "ERR vector file does not exist") || strings.HasPrefix(st, "ERR vector file does not open") {
+					o.Violation("commit-vector-object-gone", fmt.Sprintf("after step %d (%s): commit #%d %s (a %s) lists a vector for object %s; its vector object: %s (nothing was vacuumed)", step, op, ci, commit, m.Commits[commit].Kind, v.ID, st))
+				}
 			}
 		}
 	}
